@@ -73,7 +73,7 @@ def oracle(c):
         return None
     r, prog = rc.build(c)
     s = c["s"]
-    got = r.apply(s)
+    got = r.apply(s, **rc.call_kw(c))
     if rc.has_mask(prog):
         if any(True for _ in rc.rules_of(prog)):
             return None
@@ -85,7 +85,7 @@ def oracle(c):
     want = _expected(prog, s, c["active"])
     if got.string != want:
         return "apply(%r) = %r, ordered substitution gives %r" % (s, got.string, want)
-    steps = list(r.trace(s))
+    steps = list(r.trace(s, **rc.call_kw(c)))
     if not steps or steps[-1].string != got.string:
         return "the last trace element is not the result of apply"
     cur = s
